@@ -35,7 +35,7 @@ def run(ctx):
     ctx.rule("R13.9", "round transfer function of the fs worker, over all syntactic paths of one loop iteration: await-first; empty => release; "
                       "create => record kind + watcher + cleared shadow set; keep => evidence that the watcher exists and has the configured kind; "
                       "diff = (C \\ S, S \\ C) with the shortcut only under S = {}")
-    ctx.rule("R13.4", "an empty configured path set releases the watcher; WatchedPath.recursive selects RecursiveMode::Recursive / NonRecursive")
+    ctx.rule("R13.4", "WatchedPath.recursive selects RecursiveMode::Recursive / NonRecursive")
     ctx.rule("R13.5", "lock scope: in the watchexec crate no RwLock/Mutex guard is live across an await or a call through a user-supplied Fn")
     ctx.rule("R13.6", "every public Config setter replaces the value and then calls signal_change")
 
@@ -240,19 +240,7 @@ def run(ctx):
         from .. import fsround
         fsround.check(ctx, w, interesting)
         # ---- R13.4
-        takes = [bi for bi, t in w.calls() if t.callee.is_("core::option::Option::take")]
-        emp = [(bi, t) for bi, t in w.calls() if t.callee.is_("alloc::vec::Vec::is_empty") and not w.macro(t.mac)]
-        ok = False
-        for bi, t in emp:
-            oc = [c for c, _ in __import__("wxlint.origin", fromlist=["origin_calls"]).origin_calls(w, t.args[0])]
-            if any(c.callee.is_("Changeable::get") for c in oc):
-                sw = w.blocks[t.target].term
-                if sw.kind == "switch":
-                    false_t = [tt for v, tt in sw.cases if v == 0]
-                    ok = any(tb in cfg.reachable_from(sw.otherwise, avoid=false_t) for tb in takes) and not any(
-                        tb in cfg.reachable_from(false_t[0], avoid=[bi]) for tb in takes) if false_t else False
-        ctx.require(ok, "R13.4", "empty-releases-watcher", "an empty configured path set drops the watcher (watcher.take())", w.loc(w.line),
-                    fail="an empty configured path set no longer releases the watcher")
+        # (the empty-set => release clause is R13.9 `empty-round` / `nonempty-keeps`, decided on the THIR paths)
         rec = [n for n in thir.find(root, "if") if pathx.split_not(pathx.desc(n["c"]))[0] == "path.recursive"]
         ok = False
         if len(rec) == 1:
